@@ -175,6 +175,10 @@ Definition g_add_bound (p : Z) (x : gang) : gang :=
 Definition g_delete_pod (p : Z) (x : gang) : gang :=
   g_with_sets x (srem p (g_children x)) (srem p (g_pending x)) (srem p (g_waiting x)) (srem p (g_bound x)).
 
+(* onPodAddInternal: setChild, then addBoundPod when the pod carries a node name *)
+Definition g_pod_event (p : Z) (node : bool) (x : gang) : gang :=
+  let y := g_set_child p node x in if node then g_add_bound p y else y.
+
 (* NewGang *)
 Definition new_gang (g : Z) (r : nat) : gang :=
   mkGang false true pol_once_satisfied 0 [g] false r [] [] [] [].
@@ -250,8 +254,9 @@ Definition pod_event (h : hdr) (s : state) (p : Z) (node : bool) : state :=
   let s1 := get_or_create s g in
   let s2 := if has_label h p then s1
             else attach_group_info (upd_gang s1 g (init_by_pod g (acfg_of h g))) g in
-  let s3 := upd_gang s2 g (g_set_child p node) in
-  if node then set_sat (add_bound s3 g p) g else s3.
+  (* setChild, and for a pod that already has a node: addBoundPod + setResourceSatisfied *)
+  let s3 := upd_gang s2 g (g_pod_event p node) in
+  if node then set_sat (set_sat s3 g) g else s3.
 
 Definition pod_delete (h : hdr) (s : state) (p : Z) : state :=
   let g := gang_of h p in
